@@ -76,7 +76,7 @@ def pick_insert(p, kv, n, desc, others=(), again=()):
 def _insert_cases(draw, tier):
     big = tier == "thorough"
     d = draw(gen.spline(max_p=5 if big else 4, max_extra=5 if big else 3, affine_range="maybe", normalize="maybe",
-                        vol_max_p=3, vol_max_extra=2))
+                        vol_max_p=3, vol_max_extra=2, long=True))
     pdim = len(d["degree"])
     nops = draw(st.integers(1, 8 if big else 4))
     if d["kind"] == "volume":
@@ -295,8 +295,10 @@ def check_helper(case, ctx):
         cp = pts
     span = helpers.find_span_linear(p, kv, n, u)
     before = [list(map(list, row)) if rows else list(row) for row in cp]
-    new_cp = helpers.knot_insertion(p, kv, cp, u, num=r, s=s, span=span)
-    new_kv = helpers.knot_insertion_kv(kv, u, span, r)
+    kv_arg = tuple(kv) if d.get("kv_tuple") else kv          # the helpers document list or tuple
+    ctx.label("knot-vector-as-tuple", bool(d.get("kv_tuple")))
+    new_cp = helpers.knot_insertion(p, kv_arg, cp, u, num=r, s=s, span=span)
+    new_kv = list(helpers.knot_insertion_kv(kv_arg, u, span, r))
     ctx.nt(s >= 1, "on-knot-insertion")
     ctx.nt(r >= 2, "count>=2")
     ctx.nt(rows > 0, "rows")
